@@ -230,14 +230,14 @@ def createMergePatch (a b : Bytes) : Outcome Bytes :=
        | some (.arr ys) =>
          if xs.length ≠ ys.length then .err .badDoc
          else match createArray xs ys with
-           | .ok vs => .ok (Cst.print (.arr (vs.map Impl.marshalAny)))
+           | .ok vs => .ok (let b := Cst.print (.arr (vs.map Impl.marshalAny)); respellBF (b.length + 1) b)
            | .err e => .err e
            | .panic => .panic
        | _ => .err .badDoc)
     | _ => .err .badDoc
   else if !ra && !rb then
     match createObject a b with
-    | .ok v => .ok (Cst.print (Impl.marshalAny v))
+    | .ok v => .ok (let b := Cst.print (Impl.marshalAny v); respellBF (b.length + 1) b)
     | .err e => .err e
     | .panic => .panic
   else .err .badMergeTypes
